@@ -1,1 +1,4 @@
 // hook file for ntp-proto/src/packet/v5/server_reference_id.rs: declares the per-property harness modules
+#[cfg(any(verif_all, verif_c34))]
+#[path = "/verif/harness/ntp-proto/c34.rs"]
+mod c34;
